@@ -148,7 +148,9 @@ CLAIMED = {
 ADDED = {
  'C01': ' Kernel tie: `indices` and `offset_slice_indices_lsb0` are translated from the source on every run and bridged (forall arguments) to the hand model.',
  'C03': ' Round 3: the Python source of insert, overwrite, reverse, rol, ror, _rol_msb0, _ror_msb0, <<=, >>=, *=, _insert, _overwrite, _delete, _reversebytes, _validate_slice is translated to Gallina on every run and a bridge obligation (translated source = this model, for all arguments) is proved by case analysis; when a bridge breaks the arguments on which the two differ are found by exhaustive small-domain evaluation and replayed on the implementation.',
- 'C06': ' Round 3: twelve stream methods (position setters, bytealign, append, +=, prepend, insert, overwrite, item and slice deletion, clear) are translated from the source each run and bridged to the stream machine; the stream itself as any operand is part of the histories.',
+ 'C05': ' Round 5 (Tokenizer.v): utils.expand_brackets is modelled on character lists and proved for all strings: termination (no fuel bound in the length exists; one is given for unnested formats), no brackets left, identity on bracket-free formats, n*(f) = f written n times (any spelling of n, nested bodies), composition at a comma, token counts; the model is run against utils.expand_brackets on the generated formats.',
+ 'C15': ' Round 5 (DtypeLen.v): total classification for EVERY row of the dtype register, every length argument (none / any integer) and every value through Dtype.build, the keyword route and the token route: success iff the length is accepted and the value fits, then exactly the encoding with exactly length*multiplier bits; every failure is ValueError; accepted integers read back unchanged.',
+ 'C06': ' Round 5 (StreamLsb.v): the machine with options.lsb0 as a parameter (equal to the msb0 machine with the option off): in both bit numberings every operation and history keeps 0<=pos<=len, failing operations restore the state (readto included), peeks are pure, mutators leave pos as documented. Round 3: twelve stream methods (position setters, bytealign, append, +=, prepend, insert, overwrite, item and slice deletion, clear) are translated from the source each run and bridged to the stream machine; the stream itself as any operand is part of the histories.',
  'C07': ' Round 3 (CutProofs.v): cut yields exactly the successive n-bit chunks (count, lengths, concatenation, error clauses); startswith/endswith are true exactly when the pattern fits and equals the first/last bits of the window; count(v) is the number of positions holding v; split with a count is the first count pieces; split_exact: the pieces are the slices between the window start, the greedy chain of non-overlapping aligned occurrences (unique) and the window end; `in` iff an occurrence exists. Histories of searches and in-place changes on one object are part of the correspondence.',
  'C12': ' Round 5 (LsbPack.v): read / peek / readlist / peeklist / unpack and pack with options.lsb0 as a parameter of the model (equal to the msb0 model with the option off): pack joins the same per-token stores in reverse order, has the same errors and equals msb0 pack of the reversed lists; lsb0 unpack inverts lsb0 pack; every lsb0 list read is the msb0 read of the reversed data with each field reversed back before interpretation (literally the mirror for bit-valued tokens); the field rule read(p, l) = stored d[len-p-l : len-p]; exp-Golomb codes are refused by pack and by every reader under lsb0. Round 3 (MirrorStep.v, LsbSplit.v): the mirror law is now proved as well for slice assignment and deletion with ANY step, scalar fill, set/invert over iterables and ranges (partial effect and error included), __setitem__/__delitem__, overwrite, append, prepend, *=, byteswap (content, count, errors), startswith, endswith, cut and replace; split (not in the property list) is characterised exactly and its mirror law refuted with a witness. indices/offset_slice_indices_lsb0 and _reversebytes are translated from the source each run and bridged.',
  'C14': ' Round 5 (ArrayOps.v): the three element-wise loops (scalar, in-place, Array-Array), comparisons, bitwise forms and _promotetype are modelled statement by statement for ANY item codec and operator and proved: the result is the operator mapped over the items (item i with item i between Arrays), any misfit / ZeroDivisionError raises ValueError after the loop, other exceptions escape at once, a failing in-place operator leaves the data unchanged and a succeeding one holds the data of the pure form, comparisons give the bool Array of item-wise results, promotion is "leftmost maximum of (class, length)" - a tie goes to the first (D62) - and associative; the int instances run against the implementation on every run (ArrayCases.v). Round 3 (ArrayMut.v, for ANY data via data = concat items ++ trailing): slice deletion with any key, slice assignment (unit and extended step), extend (values / Array), reverse, tolist, iteration, equals, copy, count equal the list operations on the items and leave the trailing bits as stated. The documented type promotion is checked for every dtype pair, programs also run under lsb0.',
@@ -158,7 +160,7 @@ ADDED = {
 }
 NOTE_ADDED = {
  'C07': ' Round 3: cut, startswith/endswith, count, split with a count and the exact split are now proved (msb0); lsb0 startswith/endswith/cut/replace are proved in C12.',
- 'C12': ' Round 5: read/peek/unpack/pack order is now proved and run on the model (LsbPack.v); only lsb0 stream histories with mutators remain correspondence-only.',
+ 'C12': ' Round 5: read/peek/unpack/pack order is now proved and run on the model (LsbPack.v), and whole lsb0 stream histories obey the mirror law (StreamLsb.v: C12_stream_history_mirror; exp-Golomb reads and unit-step integer slice assignment excepted and characterised).',
  'C14': ' Round 5: the element-wise operators and the promotion are now proved (generic in the item codec; float arithmetic itself is a parameter) and the int instances are run on the model; dtype change remains oracle-checked.',
  'C19': ' Round 3: the digit content, grouping and line structure of pp() for one format with a stated length are now proved; repr/eval, two formats, default lengths and Array.__repr__ remain oracle-only.',
 }
